@@ -157,3 +157,24 @@ TEXT = {
         "level_note": "No schedule control on real sockets; a hang needs a witness (process quiescence, or no byte of progress for 10 s on the connection), otherwise the run is inconclusive. One open known finding (target left hanging after half-close + pause + close), see known_findings.json and DESIGN.md 7.5.",
     },
 }
+
+# additions of round 9 (see DESIGN.md 7.6 / 7.8)
+FIX_COMMITS.append("cce3730")
+_R9 = {
+    "C01": "Round 9: every other run addresses its targets by a name with an IPv6 and an IPv4 address while the server has no usable IPv6 source address (the shard runs in a private mount namespace with its own /etc/hosts; skipped and recorded where that is not permitted); SOCKS5 associations also send datagrams with FRAG != 0 and must go on relaying afterwards; targets also answer with zero-length datagrams; the refusing port is reserved for the whole run.",
+    "C03": "Round 9: a third job runs the bridge executions of C13 (local bursts of several hundred KiB ready at once) with only the credit rules giving verdicts.",
+    "C04": "Round 9: a third of the isolation scenarios flood an endpoint whose application does not fetch (or only slowly fetches) its datagrams with more datagrams than its buffer holds.",
+    "C06": "Round 9: a Reset sent after the peer's Reset of the same stream was delivered, while the application still holds the stream, is reported (a Reset answered with a Reset).",
+    "C08": "Round 9: a ninth fault kind (dead peer behind a sink that never becomes ready again), the executions in which the application keeps reading its streams after dropping the Multiplexor, and the rule that the payload delivered to an endpoint for a stream its application holds is read before end-of-stream.",
+    "C11": "Round 9: every datagram accepted by send_datagram must appear on the wire while the connection is up.",
+    "C12": "Round 9: the writer's waker is a scheduling point of the thread that invokes it (a wake-up is the moment another worker may poll the task), so orders in which the woken writer runs before the waking thread's next statement are enumerated; the free-running stress reports a poll that burns seconds of its thread's CPU time without returning.",
+    "C13": "Round 9: local sides with several hundred KiB ready in one poll; the far application also performs zero-length writes.",
+    "C15": "Round 9: a request abandoned by its caller before the answer, followed by a request to which the generator offers the abandoned id; requests crossing with the same id from both sides; a request under an id the responder still uses for a stream of its own.",
+    "C16": "Round 9: a peer that dies behind a sink that is blocked from then on (nothing can be sent, flushed or closed): the time-out bounds and the release of pending operations still apply.",
+    "C17": "Round 9: the configuration matrix is executed again for P-384, Ed25519, P-521 and RSA-2048 keys (whatever the provider can generate).",
+    "C19": "Round 9: the server also answers the upgrade request with complete 200 / 301 / 503 responses (final, like 404).",
+    "C20": "Round 9: the Buf view of CowBytes (copy_to_bytes, get_u8, copy_to_slice, take) on both variants; chains are also read through one multi-segment advance, copy_to_bytes and chunks_vectored.",
+    "C02": "Round 9: now and then one write of 1 MiB .. 5 MB (plain or vectored).",
+}
+for _k, _v in _R9.items():
+    TEXT[_k]["level_text"] += " " + _v
